@@ -2,7 +2,7 @@
    shift_episodes / extract_initial_conditions / extract_input / strip_initial_conditions
    (Gen/EpisodesGen.v, numpy slice semantics) are the per-episode functions of the model
    (Episodes.v), to which the theorems about map_episodes apply. *)
-From Coq Require Import List ZArith Arith Bool Lia.
+From Coq Require Import List ZArith NArith Nnat Arith Bool Lia.
 From PK Require Import PyList SliceLib Episodes.
 From PK.Gen Require Import EpisodesGen.
 Import ListNotations.
@@ -123,3 +123,80 @@ Proof.
 Qed.
 
 End Whole.
+
+(* ---------- unique_episodes / split_episodes / combine_episodes themselves, as regenerated from the source,
+   are the model's uniq / split / combine: the frame every episode utility and every episode-dependent
+   lifting function goes through *)
+From PK Require Import EpisodesFacts TsvdFacts.
+Section Frame.
+Variable T : Type.
+
+Lemma fold_max_ge_in : forall (l : list N) x, In x l -> (x <= fold_right N.max 0 l)%N.
+Proof. induction l as [|a l IH]; intros x Hx; [destruct Hx|]. destruct Hx as [<-|H]; cbn [fold_right]; [lia|specialize (IH x H); lia]. Qed.
+
+Lemma flatnonzero_bincount_In : forall (l : list N) x, In x (flatnonzero (bincount l)) <-> In x l.
+Proof.
+  intros l x. unfold flatnonzero. rewrite in_map_iff. split.
+  - intros [j [<- Hj]]. apply (find_all_spec _ _ _ 0) in Hj. destruct Hj as [Hlen Hq].
+    destruct l as [|a l]; [cbn in Hlen; lia|]. unfold bincount in *. set (L := a :: l) in *.
+    rewrite map_length, seq_length in Hlen.
+    rewrite (nth_indep _ 0 ((fun i => count_occ N.eq_dec L (N.of_nat i)) 0)) in Hq by (rewrite map_length, seq_length; exact Hlen).
+    rewrite (map_nth (fun i => count_occ N.eq_dec L (N.of_nat i))), seq_nth in Hq by exact Hlen. cbn [Nat.add] in Hq.
+    apply negb_true_iff, Nat.eqb_neq in Hq. apply (count_occ_In N.eq_dec). lia.
+  - intros Hin. exists (N.to_nat x). split; [apply N2Nat.id|].
+    destruct l as [|a l]; [destruct Hin|]. unfold bincount. set (L := a :: l) in *.
+    assert (Hlen : N.to_nat x < S (N.to_nat (fold_right N.max 0%N L))).
+    { pose proof (fold_max_ge_in L x Hin). lia. }
+    apply (find_all_spec _ _ _ 0). rewrite map_length, seq_length. split; [exact Hlen|].
+    rewrite (nth_indep _ 0 ((fun i => count_occ N.eq_dec L (N.of_nat i)) 0)) by (rewrite map_length, seq_length; exact Hlen).
+    rewrite (map_nth (fun i => count_occ N.eq_dec L (N.of_nat i))), seq_nth by exact Hlen. cbn [Nat.add].
+    rewrite N2Nat.id. apply negb_true_iff, Nat.eqb_neq. apply (count_occ_In N.eq_dec) in Hin. lia.
+Qed.
+
+(* indices returned by find_all are strictly increasing *)
+Lemma find_all_from_sorted : forall (A : Type) (q : A -> bool) (l : list A) s,
+  ssorted (map N.of_nat (map fst (filter (fun ia => q (snd ia)) (zip (seq s (length l)) l))))
+  /\ forall j, In j (map fst (filter (fun ia => q (snd ia)) (zip (seq s (length l)) l))) -> s <= j.
+Proof.
+  intros A q. induction l as [|a l IH]; intros s; cbn [length seq zip filter map]; [split; [exact I|intros j []]|].
+  destruct (IH (S s)) as [Hs Hge]. cbn [snd]. destruct (q a); cbn [map fst].
+  - split.
+    + cbn [ssorted]. split; [|exact Hs]. intros x Hx. apply in_map_iff in Hx. destruct Hx as [j [<- Hj]].
+      specialize (Hge j Hj). lia.
+    + intros j [<-|Hj]; [lia|]. specialize (Hge j Hj). lia.
+  - split; [exact Hs|]. intros j Hj. specialize (Hge j Hj). lia.
+Qed.
+
+Theorem gen_unique_episodes_model : forall (l : list N), gen_unique_episodes l = uniq l.
+Proof.
+  intros l. unfold gen_unique_episodes. apply ssorted_ext.
+  - unfold flatnonzero, find_all. apply (proj1 (find_all_from_sorted _ (fun n => negb (Nat.eqb n 0)) (bincount l) 0)).
+  - apply uniq_sorted.
+  - intros x. rewrite flatnonzero_bincount_In. symmetry. apply uniq_In.
+Qed.
+
+Lemma mask_rows_model : forall i (X : dmat T),
+  mask_rows (map (fun l => N.eqb l i) (label_column X)) (data_columns X) = rows_of i X.
+Proof.
+  intros i X. unfold mask_rows, label_column, data_columns, rows_of.
+  induction X as [|[l r] X IH]; [reflexivity|]. cbn [map zip filter fst snd].
+  destruct (N.eqb l i); cbn [map snd]; now rewrite IH.
+Qed.
+
+Theorem gen_split_episodes_model : forall (ep : bool) (X : dmat T), gen_split_episodes T X ep = split ep X.
+Proof.
+  intros ep X. unfold gen_split_episodes, split. destruct ep; [|reflexivity].
+  cbn zeta. rewrite app_nil_l, gen_unique_episodes_model. apply map_ext. intros i. now rewrite mask_rows_model.
+Qed.
+
+Theorem gen_combine_episodes_model : forall (ep : bool) (eps : episodes T), gen_combine_episodes T eps ep = combine ep eps.
+Proof.
+  intros ep eps. unfold gen_combine_episodes, combine, vstack_list, attach_label. rewrite app_nil_l, flat_map_concat_map.
+  f_equal. apply map_ext. intros e. destruct ep; reflexivity.
+Qed.
+
+(* hence the idiom of every utility: split, apply per episode (label kept), combine *)
+Theorem gen_frame_model : forall (ep : bool) (g : list (list T) -> list (list T)) (X : dmat T),
+  gen_combine_episodes T (map (fun e => (fst e, g (snd e))) (gen_split_episodes T X ep)) ep = map_episodes ep g X.
+Proof. intros. unfold map_episodes. now rewrite gen_split_episodes_model, gen_combine_episodes_model. Qed.
+End Frame.
